@@ -9,6 +9,9 @@
 (*   pair   : A has TWO fields (types from PairTypes) x every key style    *)
 (*            (keyword-like, camelCase, colliding after case-fold,         *)
 (*            swapped, partially mapped, identity Meta) x required pattern *)
+(*   cycle  : the class graph is CYCLIC: two or three mutually recursive   *)
+(*            classes linked through list / dict / direct / Optional       *)
+(*            fields, renamed keys on every class, every class as entry    *)
 (* For each scenario TLC checks the laws on the reference codec (invariant *)
 (* Laws) and prints one SCEN line: classes, top, instances (with their     *)
 (* decoded values) and the non-conforming mutants.                         *)
@@ -18,7 +21,11 @@ CONSTANTS LeafSet,     \* leaf types in the family
           Wraps,       \* max number of wrapper levels in the single family (2 or 3)
           AStyles, DStyles, PairStyles,
           PairLeafs,   \* leaf types used in the pair family
-          Families     \* subset of {"single", "pair"}
+          CycleKinds,  \* link kinds of the 2-class cycles: subset of {"list", "dict", "direct", "opt"}
+          Cycle3Kinds, \* link kinds of the 3-class cycles
+          CycleStyles, \* key styles of the classes on a cycle
+          CycleMixed,  \* TRUE: only 2-cycles whose classes use two different key styles (quick-tier stratum)
+          Families     \* subset of {"single", "pair", "cycle"}
 VARIABLES scen, done
 gvars == <<scen, done, hooks, hist, last>>
 
@@ -58,7 +65,27 @@ Pair ==
   {[classes |-> Table(ADef(as, <<t1, t2>>, rq), UsesD(t1) \/ UsesD(t2), "swap", FALSE), top |-> ClsT("A"), fam |-> "pair"] :
      as \in PairStyles, t1 \in PairTypes, t2 \in PairTypes, rq \in {<<TRUE, TRUE>>, <<TRUE, FALSE>>, <<FALSE, FALSE>>}}
 
+\* cycle: the class GRAPH is cyclic - P -> Q -> P and P -> Q -> R -> P through list / dict / direct / Optional links
+\* (never all direct: no finite instance), renamed wire keys on every class, every class of the cycle as entry class
+LinkTy(kind, to) == CASE kind = "list" -> ListT(ClsT(to)) [] kind = "dict" -> DictT(ClsT(to)) [] OTHER -> ClsT(to)
+CDef(role, style, to, kind) ==
+  [meta |-> StyleMeta[style],
+   fields |-> <<Fld(PyName(role, style, 1), WireName(role, style, 1), LeafT("str"), TRUE),
+                Fld(PyName(role, style, 2), WireName(role, style, 2), LinkTy(kind, to), kind # "opt")>>]
+Cycle2 ==
+  UNION {IF (k1 = "direct" /\ k2 = "direct") \/ (CycleMixed /\ sp = sq) THEN {} ELSE
+           {[classes |-> [n \in {"P", "Q"} |-> IF n = "P" THEN CDef("A", sp, "Q", k1) ELSE CDef("D", sq, "P", k2)],
+             top |-> ClsT(t), fam |-> "cycle"] : t \in {"P", "Q"}} :
+         k1 \in CycleKinds, k2 \in CycleKinds, sp \in CycleStyles, sq \in CycleStyles}
+Cycle3 ==
+  UNION {IF k1 = "direct" /\ k2 = "direct" /\ k3 = "direct" THEN {} ELSE
+           {[classes |-> [n \in {"P", "Q", "R"} |-> IF n = "P" THEN CDef("A", "camel", "Q", k1)
+                                                   ELSE IF n = "Q" THEN CDef("D", "kw", "R", k2) ELSE CDef("E", "camel", "P", k3)],
+             top |-> ClsT(t), fam |-> "cycle"] : t \in {"P", "Q", "R"}} :
+         k1 \in Cycle3Kinds, k2 \in Cycle3Kinds, k3 \in Cycle3Kinds}
+
 Scenarios == (IF "single" \in Families THEN Single ELSE {}) \cup (IF "pair" \in Families THEN Pair ELSE {})
+             \cup (IF "cycle" \in Families THEN Cycle2 \cup Cycle3 ELSE {})
 
 cl == scen.classes
 Top == scen.top
@@ -77,7 +104,7 @@ Emit ==
   /\ ~done
   /\ done' = TRUE
   /\ UNCHANGED <<scen, hooks, hist, last>>
-  /\ PrintT("SCEN " \o ToJson([classes |-> cl, top |-> Top, fam |-> scen.fam, depth |-> TyDepth(cl, Top),
+  /\ PrintT("SCEN " \o ToJson([classes |-> cl, top |-> Top, fam |-> scen.fam, depth |-> TyDepth(cl, Top), cyclic |-> CyclicTable(cl),
                                inst |-> SetToSeq({[j |-> j, v |-> Decode(cl, Top, j)] : j \in Instances(cl, Top)}),
                                bad |-> SetToSeq(Mutants(cl, Top))]))
 Spec == Init /\ [][Emit]_gvars
